@@ -116,6 +116,18 @@ theorem C13_restore_mono (sv : String) (self : Store) (ov : String) (other : Sto
       refine ⟨?_, fun _ => ⟨rfl, by simpa using hv⟩, fun h => absurd rfl h⟩
       exact epochRejected_false (by simpa using hg)
 
+/-- the `restore` of the statements here is the function the correspondence drives: the broker
+stream's `push_snap` runs the real `MetaStore::restore` on a live store against `restoreInto`
+(same version on both sides, as everywhere in one build of the crate) -/
+theorem C13_restore_driven (v : String) (s o : Store) :
+    (restore v s v o).1 = (restoreInto s o).1 ∧
+    ((restore v s v o).2 = none ↔ (restoreInto s o).2 matches .ok _) ∧
+    ((restore v s v o).2 = some .smallEpoch ↔ (restoreInto s o).2 matches .err .smallEpoch) := by
+  unfold restore restoreInto epochRejected
+  have hc : Um.Gen.EpochRecovery.RESTORE_REJECTS_EQUAL = false := by decide
+  simp only [bne_self_eq_false, Bool.false_eq_true, if_false, hc]
+  by_cases h : s.globalEpoch > o.globalEpoch <;> simp [h]
+
 /-- the replica path end to end: whatever reachable snapshot `other` a broker was restored from,
 recovery with the proxies' largest epoch `E` makes every later view newer than `E` and keeps the
 global epoch above the one the broker had before the restore -/
